@@ -22,9 +22,11 @@ inline Plan Gen(uint64_t seed)
    const int sockets = (int) cfg.below(2);
    // ownloop: 0 = Thread's default loop, 1 = own loop on timed WaitForNextMessageFromOwner(), 2 = own loop that select()s on the wake-up socket FIRST and only then polls
    //          the queue (the documented pattern for a thread with its own event loop, e.g. MessageTransceiverThread's ReflectServer): it depends on every wake-up byte.
-   // ownersel: the owner collects replies the same way (select() on GetOwnerWakeupSocket(), then GetNextReplyFromInternalThread(0) until empty)
+   // ownersel: 1 = the owner collects replies the same way (GetNextReplyFromInternalThread(0) until empty, then select() on GetOwnerWakeupSocket());
+   //           2 = STRICTLY event-driven owner: it looks at its reply queue only after select() reported the wake-up socket readable, and then drains it
+   //               (its G ops are no-ops): every reply -- including one queued before the thread was started -- must produce a wake-up byte
    const int ownloop = cfg.oneIn(3) ? 1 : (((sockets)&&(cfg.oneIn(3))) ? 2 : 0);
-   p.push_back("cfg prop=C11 sockets=" + I(sockets) + " ownloop=" + I(ownloop) + " ownersel=" + I(((sockets)&&(cfg.oneIn(3))) ? 1 : 0) + " extras=" + I(extras) + thrc::SchedCfgStr(cfg));
+   p.push_back("cfg prop=C11 sockets=" + I(sockets) + " ownloop=" + I(ownloop) + " ownersel=" + I(((sockets)&&(cfg.oneIn(3))) ? (1 + (int) cfg.below(2)) : 0) + " extras=" + I(extras) + thrc::SchedCfgStr(cfg));
    std::string s = "prog 0";
    const int pre = (int) wl.below(3); if (pre) s += " S" + I(pre);     // queued before the thread is started
    if (wl.oneIn(4)) s += " P" + I(1 + wl.below(2));                     // replies queued (by the subclass) before the thread is started
@@ -153,7 +155,7 @@ inline void Exec(const Plan & plan, RunResult & res)
    {
       const bool sockets = (cfg.i("sockets", 1) != 0);
       EchoThread t(sockets, sockets ? (int) cfg.i("ownloop", 0) : (cfg.i("ownloop", 0) ? 1 : 0), &sh);
-      const bool ownerSel = (sockets)&&(cfg.i("ownersel", 0) != 0);
+      const bool ownerSel = (sockets)&&(cfg.i("ownersel", 0) != 0), strictOwner = (sockets)&&(cfg.i("ownersel", 0) == 2);
       SocketMultiplexer ownerSm;
       auto Send = [&](int sender, int k) {for (int i=0; i<k; i++) {const uint32 w = (uint32)(sender*100000) + sh.nextSeq[sender]++; sh.sendsInFlight++; if (t.SendMessageToInternalThread(GetMessageFromPool(w)).IsOK()) {sh.sentTo[sender].push_back(w); res.stats.inc("msgs_sent"); sh.sendsDone++; sh.sendsInFlight--;} else thr::ReportAndExit("send_failed", "SendMessageToInternalThread failed"); if (i+1 < k) thr::Yield();}};
       auto TotalSent = [&]() {size_t n = 0; for (auto & v : sh.sentTo) n += v.size(); return n;};
@@ -179,13 +181,12 @@ inline void Exec(const Plan & plan, RunResult & res)
       // the owner's select-first collection: polls until its queue is empty (only then is the next wake-up byte guaranteed), then sleeps in select() on the owner wake-up socket
       auto SelectAndCollect = [&]()
       {
-         while(GetReply(0)) {}
-         if (sh.replies.size() >= TotalOwed()) return;
+         if (!strictOwner) {while(GetReply(0)) {} if (sh.replies.size() >= TotalOwed()) return;}
          const int fd = t.GetOwnerWakeupSocket().GetFileDescriptor();
          if (fd < 0) thr::ReportAndExit("no_wakeup_socket", "GetOwnerWakeupSocket() is invalid while the internal thread is running");
          (void) ownerSm.RegisterSocketForReadReady(fd);
          if (ownerSm.WaitForEvents(MUSCLE_TIME_NEVER).IsError()) thr::ReportAndExit("select_failed", "SocketMultiplexer::WaitForEvents failed on the owner wake-up socket");
-         if (ownerSm.IsSocketReadyForRead(fd)) res.stats.inc("owner_select_wakeups");
+         if (ownerSm.IsSocketReadyForRead(fd)) {res.stats.inc("owner_select_wakeups"); if (strictOwner) while(GetReply(0)) {}}
       };
       auto Drain = [&]() {int guard = 0; while((sh.replies.size() < TotalOwed())&&(guard++ < 10000)) {if (ownerSel) SelectAndCollect(); else (void) GetReply(MUSCLE_TIME_NEVER);}};
       auto Shutdown = [&](bool waitToo)
@@ -211,6 +212,7 @@ inline void Exec(const Plan & plan, RunResult & res)
                sh.preCount++; sh.repliesDone++; res.stats.inc("p.reply_queued_before_start");
             }
          }
+         else if ((strictOwner)&&(op.size() > 1)&&(op[0] == 'G')) res.stats.inc("p.strict_owner_skipped_poll");
          else if (op == "G0") (void) GetReply(0);
          else if (op == "GN") {if ((running)&&(sh.replies.size() < TotalOwed())) (void) GetReply(MUSCLE_TIME_NEVER);}   // waiting forever is only compliant when a reply is still owed
          else if ((op.size() > 1)&&(op[0] == 'G')) (void) GetReply(thr::Now() + ToU(op.substr(1)));
@@ -244,7 +246,7 @@ inline void Exec(const Plan & plan, RunResult & res)
    WatchdogDisarm();
    res.stats.inc(cfg.i("sockets", 1) ? "runs_socket_signalling" : "runs_waitcondition_signalling");
    if (cfg.i("ownloop", 0) == 1) res.stats.inc("runs_own_event_loop"); if ((cfg.i("ownloop", 0) == 2)&&(cfg.i("sockets", 1))) res.stats.inc("runs_select_first_event_loop");
-   if ((cfg.i("ownersel", 0))&&(cfg.i("sockets", 1))) res.stats.inc("runs_owner_select_first"); if (cfg.i("realcv", 0)) res.stats.inc("runs_real_condition_variable_code");
+   if ((cfg.i("ownersel", 0))&&(cfg.i("sockets", 1))) res.stats.inc((cfg.i("ownersel", 0) == 2) ? "runs_owner_strictly_event_driven" : "runs_owner_select_first"); if (cfg.i("realcv", 0)) res.stats.inc("runs_real_condition_variable_code");
    res.nontrivial = (sh.insideLog.size() >= 1)&&(thr::Stats().switches >= 2);
 }
 
